@@ -48,6 +48,7 @@ SOURCES = [
     # a slice must come from the operand's own source object, not from an "equal" one
     Con("SMem", b"m1", Some(b"XY\nZW\nQRS")),
     Con("SText", b"uri::x", b"T"),
+    Con("SText", b"uri::x", b"U"),      # same class and uri as the previous one, another source_type: a different source
     Con("SFile", b"dir/f.txt"),
 ]
 
